@@ -322,7 +322,29 @@ fn parse_alt(s: &str) -> Option<Alt> {
     Some(a)
 }
 
+fn distinct<'a, I: IntoIterator<Item = &'a String>>(names: I) -> bool {
+    let v: Vec<&String> = names.into_iter().collect();
+    v.iter().collect::<BTreeSet<_>>().len() == v.len()
+}
+
+/// the grammar also refuses an op that names a column twice (lance's behaviour there is not part of the check)
 fn parse_op(line: &str) -> Option<Op> {
+    let op = parse_op_raw(line)?;
+    let ok = match &op {
+        Op::AddSql(_, es) => distinct(es.iter().map(|e| &e.0)),
+        Op::AddNulls(cs) | Op::AddReader(_, cs, _) => distinct(cs.iter().map(|c| &c.name)),
+        Op::Alter(alts) => distinct(alts.iter().map(|a| &a.col)),
+        Op::Drop(cs) => distinct(cs.iter()),
+        _ => true,
+    };
+    if ok {
+        Some(op)
+    } else {
+        None
+    }
+}
+
+fn parse_op_raw(line: &str) -> Option<Op> {
     let t: Vec<&str> = line.split(' ').filter(|s| !s.is_empty()).collect();
     match t.as_slice() {
         ["create", cs, rows] => {
@@ -428,7 +450,7 @@ impl Flat {
         match e {
             Expr::Col(c) => self.col(c).map(|(d, v)| (d.ty, d.nullable, v.clone())),
             Expr::Plus(c, k) => {
-                self.col(c).map(|(d, v)| (Ty::I64, d.nullable, v.iter().map(|x| x.map(|x| x + k)).collect()))
+                self.col(c).map(|(d, v)| (d.ty, d.nullable, v.iter().map(|x| x.map(|x| x + k)).collect()))
             }
             Expr::Null(t) => Some((*t, true, vec![None; self.n])),
         }
@@ -491,7 +513,9 @@ impl Flat {
             }
             Op::AddReader(_, cs, b) => {
                 let rows: Vec<Row> = b.iter().flatten().cloned().collect();
-                if rows.len() != self.n || !Self::rows_fit(cs, &rows) {
+                // add_columns_from_stream asks the stream for one more batch after the last row: a trailing EMPTY batch
+                // is "more values than expected" (mirrored, not counted as a violation: the op is refused, nothing changes)
+                if rows.len() != self.n || !Self::rows_fit(cs, &rows) || b.last().map(|l| l.is_empty()).unwrap_or(false) {
                     return None;
                 }
                 let mut seen = BTreeSet::new();
@@ -791,7 +815,9 @@ fn cut(rng: &mut Rng, rows: Vec<Row>) -> Vec<Vec<Row>> {
     let k = 1 + rng.usize(3);
     for i in 0..k {
         if i + 1 == k {
-            out.push(std::mem::take(&mut rest));
+            if !rest.is_empty() || (out.is_empty() && rng.chance(1, 2)) {
+                out.push(std::mem::take(&mut rest));
+            }
         } else {
             let n = rng.usize(rest.len() + 1);
             let tail = rest.split_off(n);
@@ -1028,8 +1054,13 @@ impl Prop for C14 {
         let mut flat: Option<Flat> = None;
         let mut prev: Option<Obs> = None;
         let mut evolved = 0usize;
+        let mut dead = false;
         let debug = std::env::var("C14_DEBUG").is_ok();
         for (ln, line) in lines.iter().enumerate() {
+            if dead {
+                res.outputs.push("skip".into());
+                continue;
+            }
             let Some(op) = parse_op(line) else {
                 res.outputs.push("err parse".into());
                 res.tags.push("err:parse".into());
@@ -1080,7 +1111,7 @@ impl Prop for C14 {
                         .cloned()
                         .or_else(|| e.downcast_ref::<&str>().map(|s| s.to_string()))
                         .unwrap_or_else(|| "panic".into());
-                    res.failures.push(OracleFailure { what: format!("{} panicked: {msg}", op_kind(&op)), key: Some("op_panic".into()), line: ln });
+                    res.failures.push(OracleFailure { what: format!("{} panicked: {msg}", op_kind(&op)), key: Some(format!("{}_panic", op_kind(&op))), line: ln });
                     res.outputs.push("err panic".into());
                     continue;
                 }
@@ -1104,7 +1135,10 @@ impl Prop for C14 {
                     }
                     res.outputs.push(format!("err {}", e.kind.as_str()));
                     res.tags.push(format!("err:{}:{}", op_kind(&op), e.kind.as_str()));
-                    if expected.is_some() {
+                    if e.msg.contains("Missing too many rows in merge") {
+                        // documented limitation of the Updater (the first read batch of a fragment holds only deleted rows)
+                        res.tags.push("refused:missing_too_many_rows".into());
+                    } else if expected.is_some() {
                         res.failures.push(OracleFailure {
                             what: format!("a valid {} was refused: {}", op_kind(&op), e.msg),
                             key: Some(format!("valid_{}_refused", op_kind(&op))),
@@ -1128,13 +1162,12 @@ impl Prop for C14 {
                     let obs = match observe(kit, d) {
                         Ok(o) => o,
                         Err(e) => {
-                            res.failures.push(OracleFailure { what: format!("cannot read the table after {}: {}", op_kind(&op), e.msg), key: Some("unreadable_after_op".into()), line: ln });
-                            res.outputs.push(format!("err unreadable"));
-                            // keep going on the replay so that later lines still compare
-                            if let Some(f) = expected {
-                                flat = Some(f);
-                            }
-                            prev = None;
+                            let key = if e.msg.contains("does not contain any data") { "fragment_without_data_files" } else { "unreadable_after_op" };
+                            res.failures.push(OracleFailure { what: format!("cannot read the table after {}: {}", op_kind(&op), e.msg), key: Some(key.into()), line: ln });
+                            res.tags.push(format!("unreadable:{}", op_kind(&op)));
+                            res.outputs.push("err unreadable".to_string());
+                            // the table is lost for every later op of the case (both sides print `skip`)
+                            dead = true;
                             continue;
                         }
                     };
@@ -1261,7 +1294,7 @@ impl Prop for C14 {
             }
         }
         // a fresh handle sees the same table
-        if let (Some(_), Some(p)) = (&ds, &prev) {
+        if let (Some(_), Some(p), false) = (&ds, &prev, dead) {
             match kit.open(&uri, None).and_then(|fresh| observe(kit, &fresh)) {
                 Ok(o) if &o == p => {}
                 other => res.failures.push(OracleFailure {
